@@ -26,8 +26,9 @@ def b01 (b : Bool) : String := if b then "1" else "0"
 
 def Thread.render (i : Nat) (t : Thread) : String :=
   let st := match t.state with
-    | .runnable false => "R" | .runnable true => "U" | .blocked => "B" | .yield => "Y"
+    | .runnable => "R" | .blocked => "B" | .yield => "Y"
     | .terminated => "T"
+  let st := st ++ (if t.token then "u" else "") ++ (if t.parked then "p" else "")
   let op := match t.operation with
     | some o => s!"{o.obj}:{o.action.render}"
     | none => "-"
